@@ -8,6 +8,7 @@ package harness
 // (enumeration); rapid then samples file states x fault overlays x retry configurations.
 
 import (
+	"path/filepath"
 	"fmt"
 	"io/fs"
 	"strings"
@@ -63,9 +64,12 @@ type C15Case struct {
 	Rand int64 `json:"rand_seed,omitempty"`
 	// Again: number of further loads through the same DatabaseRecovery object
 	Again int `json:"further_loads_same_object,omitempty"`
+	// IOLat: simulated duration of the I/O events, cycled (a slow or uneven disk): attempts then take time, and not
+	// the same time each
+	IOLat []int64 `json:"io_latency_ns,omitempty"`
 }
 
-var c15Kinds = []string{"valid", "missing", "dir", "perm", "empty", "malformed", "notlist", "truncated", "bitflip"}
+var c15Kinds = []string{"valid", "missing", "dir", "perm", "empty", "malformed", "notlist", "truncated", "bitflip", "symlink", "dangling"}
 var c15Overlays = []string{"", "always", "transient1", "transient2"}
 
 func defaultCfg() RetryCfg {
@@ -81,7 +85,7 @@ func fixedCmds(tag string, n int) []Cmd {
 	return out
 }
 
-// the enumerated product: 12 main states x 12 personal states x 3 backup states
+// the enumerated product: 14 main states x 14 personal states x 3 backup states
 func c15Enumeration() []C15Case {
 	states := func(tag string) []FileState {
 		var out []FileState
@@ -108,7 +112,7 @@ func c15Enumeration() []C15Case {
 func genFileState(rt *rapid.T, label string) FileState {
 	var f FileState
 	f.Kind = rapid.SampledFrom(append([]string{"valid", "valid", "valid", "missing"}, c15Kinds...)).Draw(rt, label+"-kind")
-	if f.Kind == "valid" || f.Kind == "truncated" || f.Kind == "bitflip" || f.Kind == "perm" {
+	if f.Kind == "valid" || f.Kind == "truncated" || f.Kind == "bitflip" || f.Kind == "perm" || f.Kind == "symlink" {
 		f.Cmds = genDB(rt, 6)
 	}
 	f.Cut = rapid.IntRange(0, 400).Draw(rt, label+"-cut")
@@ -145,6 +149,9 @@ func genC15(rt *rapid.T) C15Case {
 	}
 	c.Rand = rapid.Int64Range(1, 1<<20).Draw(rt, "randseed")
 	c.Again = rapid.SampledFrom([]int{0, 0, 0, 1, 2, 4}).Draw(rt, "again")
+	if rapid.IntRange(0, 3).Draw(rt, "slowdisk") == 0 {
+		c.IOLat = rapid.SliceOfN(rapid.SampledFrom([]int64{0, 0, int64(time.Millisecond), int64(40 * time.Millisecond), int64(700 * time.Millisecond), int64(3 * time.Second)}), 1, 7).Draw(rt, "iolat")
+	}
 	if rapid.IntRange(0, 3).Draw(rt, "hassched") == 0 {
 		c.Sched = genSchedule(rt, 40)
 	}
@@ -153,7 +160,7 @@ func genC15(rt *rapid.T) C15Case {
 
 func (f *FileState) bytes() []byte {
 	switch f.Kind {
-	case "valid", "perm":
+	case "valid", "perm", "symlink":
 		return yamlOf(f.Cmds)
 	case "empty":
 		return []byte{}
@@ -183,6 +190,17 @@ func (f *FileState) bytes() []byte {
 func (f *FileState) place(d *simos.Disk, path string) []simos.Fault {
 	switch f.Kind {
 	case "missing":
+	case "symlink":
+		// the path is a symbolic link to a good file next to it (relative link text) or elsewhere (absolute)
+		if f.Cut%2 == 0 {
+			d.WriteRaw(path+".real", f.bytes(), 0o644)
+			d.SymlinkRaw(path, filepath.Base(path)+".real")
+		} else {
+			d.WriteRaw("/srv/dotfiles/"+filepath.Base(path), f.bytes(), 0o644)
+			d.SymlinkRaw(path, "/srv/dotfiles/"+filepath.Base(path))
+		}
+	case "dangling":
+		d.SymlinkRaw(path, "/nowhere/at/all.yml")
 	case "dir":
 		d.MkdirAllRaw(path, 0o755)
 	case "perm":
@@ -212,7 +230,7 @@ func (f *FileState) place(d *simos.Disk, path string) []simos.Fault {
 func (f *FileState) outcomeAt(k int) (class string, cmds []database.Command) {
 	natural := func() (string, []database.Command) {
 		switch f.Kind {
-		case "missing":
+		case "missing", "dangling":
 			return "enoent", nil
 		case "dir":
 			return "fail", nil
@@ -408,6 +426,9 @@ func runC15Body(c C15Case) *Outcome {
 	plan = append(plan, c.Backup.place(disk, c15Main+".backup")...)
 	simos.Mount(disk, plan)
 	defer simos.Unmount()
+	if len(c.IOLat) > 0 {
+		simos.SetLatency(c.IOLat, simtime.Advance)
+	}
 	desc := fmt.Sprintf("main=%s/%s%d personal=%s/%s%d backup=%s cfg=%+v", c.Main.Kind, c.Main.Fault, c.Main.N, c.Personal.Kind, c.Personal.Fault, c.Personal.N, c.Backup.Kind, c.Cfg)
 	fail := func(sig, f string, a ...any) *Outcome {
 		o.Violation = fmt.Sprintf(f, a...) + "\n  " + desc + "\n  I/O trace: " + traceString(simos.Trace()) + fmt.Sprintf("\n  sleeps: %v", simtime.Sleeps())
